@@ -13,7 +13,7 @@ EVIDENCE = {
                   "LineTensor.base_point", "SubspaceTensor.general_point", "PointLikeTensor.__add__/__mul__", "LineTensor.direction", "utils.math.det/matvec"],
     "bounds": "line spanned by free real points a, b in dimension 1, 2, 3; four free homogeneous parameters (mu_k : xi_k) each (so a point at infinity or at the origin "
               "among the four is inside the query); pencil vertex o a free real point; single objects",
-    "outside": "collections; cross ratio of four planes and harmonic_set in 3-D go through the SVD contract stub (harmonic_set and the symmetries in 3-D: built, tier attempt, undecided); rounding",
+    "outside": "collections; pencils of lines: free vertex / vertex on the y-axis / at the origin and four parallel lines (lattice direction, free offsets) are inside; cross ratio of four planes and harmonic_set in 3-D go through the SVD contract stub (harmonic_set and the symmetries in 3-D: built, tier attempt, undecided); rounding",
     "assumptions": ["ProjectiveTensor.__eq__ uses the is_multiple lemma (proved in C20) instead of the implementation, to avoid 8 forks per ==",
                     "invariance under a projective transformation = closed form (this check, for arbitrary spanning points) + linearity of point images (C07 point-image=M.x)"],
 }
@@ -180,6 +180,34 @@ def mk_lines(vertex="free"):
     return case
 
 
+def mk_parallel_lines(k):
+    """four parallel lines (pencil with its vertex at infinity): lattice direction, free real offsets; the cross ratio is that of the offsets"""
+    DIRS = [(2, -3), (0, 1), (1, 0), (1, 1)]
+
+    def case(ctx):
+        from geometer import crossratio, Line
+        n0, n1 = DIRS[k]
+        t = [ctx.real(f"t{i}") for i in range(4)]
+        for i in range(4):
+            for j in range(i):
+                ctx.assume(ctx.neg(ctx.eq(t[i], t[j])))
+        lines = [Line(mk_array(ctx, [n0, n1, ti])) for ti in t]
+        cr = crossratio(*lines)
+        if ctx.symbolic:
+            sp = getattr(cr, "special", None)
+            ctx.require("parallel-lines:quotient-defined", sp is None)
+            if sp is not None:
+                return
+        else:
+            ctx.require("parallel-lines:quotient-defined", bool(np.isfinite(cr)))
+            if not np.isfinite(cr):
+                return
+        num = (t[0] - t[2]) * (t[1] - t[3])
+        den = (t[0] - t[3]) * (t[1] - t[2])
+        ctx.require("parallel-lines:closed-form", ctx.eq(cr * den, num))
+    return case
+
+
 def mk_harmonic(dim):
     def case(ctx):
         from geometer import harmonic_set
@@ -233,6 +261,8 @@ def cases(tier, seed):
     add("lines_free_vertex", mk_lines("free"), tiers=Q, max_paths=3000)
     add("lines_vertex_on_y_axis", mk_lines("yaxis"), tiers=Q, max_paths=3000)
     add("lines_vertex_origin", mk_lines("origin"), tiers=Q, max_paths=3000)
+    for k in range(4):
+        add(f"lines_parallel{k}", mk_parallel_lines(k), tiers=Q, max_paths=3000)
     add("harmonic_2d", mk_harmonic(2), tiers=Q, max_paths=2000)
     add("harmonic_3d", mk_harmonic(3), tiers=T, max_paths=2000)
     return cs
